@@ -11,8 +11,10 @@ CONSTANTS
   Kinds = {"alterDatabase", "flush", "createIndex", "dropIndex", "alterIndex", "loadCollection", "releaseCollection", "loadPartitions", "releasePartitions"}
   WithFail = TRUE
   WithInflight = TRUE
+  WithSwap = TRUE
   WithRestart = TRUE
   AlterDbChecked = TRUE
   AlterIdxRecheck = TRUE
   DropGuarded = TRUE
+  CreateFromDrop = TRUE
   TabT = {0, 1, 2, 3}
